@@ -860,7 +860,7 @@ func TestC16(t *testing.T) {
 	r.Assume("h1 reference parser decides response framing; ctx.LastTimeoutErrorResponse()!=nil read on the serving goroutine right after the wrapper returned is the observation 'the timeout fired'")
 	r.Assume("a 429 is judged only when decidable without timing: required when gated late handlers hold all slots, forbidden when no more than Concurrency wrapped calls were ever started; everything else (slot released a moment after the handler returned) is counted as skipped_429_undecided")
 	r.Assume("not judged: HTTP/1.0 keep-alive header on timeout responses, Content-Length value of HEAD responses, late handlers that call TimeoutError* again or write to ctx.Conn() directly (caller misuse)")
-	n := r.N(400, 20000)
+	n := r.N(1000, 30000)
 	workers := 3 * runtime.GOMAXPROCS(0)
 	mon.Parallel(n, workers, func(i int) {
 		if !r.Want(i) {
